@@ -15,6 +15,7 @@ mod fileset_props;
 mod git_props;
 mod matcher_props;
 mod merge_props;
+mod path_props;
 mod refs_props;
 mod wc_props;
 
@@ -39,6 +40,7 @@ fn main() {
             "c26" => wc_props::c26(&case),
             "c30" => matcher_props::c30(&case),
             "c31" => fileset_props::c31(&case),
+            "c32" => path_props::c32(&case),
             "c33" => git_props::c33(&case),
             _ => json!({"error": format!("unknown property {prop}")}),
         }));
